@@ -421,6 +421,9 @@ pub struct TypeSpec {
     /// ranks, Default expressions) as `$v:path` / `$v:expr` fragments, bit 3 = Into targets as `$g:ty` (only with the real compiler; the in-process
     /// engine always sees the plain definition)
     pub via_macro: u8,
+    /// when the type-level Default expression is a bare literal that reaches the type through a user-written `From`
+    /// impl: the value that impl produces (as an expression)
+    pub type_expr_expect: Option<String>,
 }
 
 /// inert attribute lines: `before` selects the ones marked `^`
@@ -970,6 +973,10 @@ impl TypeSpec {
         }
         if need_clone {
             writeln!(o, "impl{ig} ::core::clone::Clone for {st}{wc} {{ fn clone(&self) -> Self {{ unsafe {{ ::core::ptr::read(self) }} }} }}").unwrap();
+        }
+        // other user-written items the request relies on (e.g. the From impls behind a literal type-level expression)
+        for e in &self.extra_items {
+            writeln!(o, "{e}").unwrap();
         }
         o
     }
